@@ -27,7 +27,7 @@ def reset():
 def _items(x):
     if isinstance(x, SBytes):
         return x.items()
-    if x.__class__ is core._EVIEW[0]:
+    if x.__class__ is core._EVIEW[0] or x.__class__ is core._EVIEW[3]:
         return x.elements()           # contains a Gap marker: see ideal()
     if x.__class__ is core._EVIEW[2]:
         from .elastic import Gap
@@ -54,6 +54,10 @@ def _same(a, b):
             continue
         if x.__class__ is int or y.__class__ is int:
             return False
+        if x.__class__ is not SInt or y.__class__ is not SInt:
+            if x.__class__ is SInt or y.__class__ is SInt or not x.same(y):      # Gap markers of elastic buffers
+                return False
+            continue
         if not z3.eq(x.e, y.e):
             return False
     return True
@@ -65,6 +69,11 @@ def _eq_formula(a, b):
         if x.__class__ is int and y.__class__ is int:
             if x != y:
                 return z3.BoolVal(False)
+        elif (x.__class__ is not int and x.__class__ is not SInt) or (y.__class__ is not int and y.__class__ is not SInt):
+            # Gap marker of an elastic buffer: equal to the same octets of the same payload only
+            if x.__class__ in (int, SInt) or y.__class__ in (int, SInt):
+                return z3.BoolVal(False)
+            cs.append(x.eq_formula(y))
         else:
             cs.append(_e(x) == _e(y))
     if not cs:
@@ -81,11 +90,6 @@ def _real(domain, msg):
 def ideal(domain, msg):
     """32-element value of the ideal function ``domain`` on message ``msg`` (list of ints/SInts)"""
     eng = core.ENG
-    for v in msg:
-        if v.__class__ is not int and v.__class__ is not SInt:
-            # the message contains the opaque region of an elastic buffer: an unconstrained fresh value
-            # (over-approximation of any function; not registered, so never compared with another digest)
-            return [eng.fresh('hg', 0, 255) for _ in range(32)]
     conc = _conc(msg)
     if eng is None or eng.mode != 'sym':
         if not conc:
